@@ -12,13 +12,27 @@ import (
 	pb "github.com/GoogleCloudPlatform/grpc-gcp-go/grpcgcp/grpc_gcp"
 )
 
-// Bounded universe of the balancer harnesses (DESIGN.md section 5.1).
-const (
-	vM = 2 // pre-existing connection identities
-	vF = 2 // fresh connections the factory can hand out during the call
-	vR = 3 // slots (subConnRef objects)
-	vK = 2 // affinity keys
-)
+// The bounded universe of the balancer harnesses (DESIGN.md section 5.1) - vM pre-existing
+// connection identities, vF fresh ones, vR slots, vK keys - is defined in zz_verif_univ_*.go:
+// 2/2/3/2 by default, 3/2/4/3 with build tag verifbig (thorough tier).
+
+func (w *verifWorld) scList(extra ...balancer.SubConn) []balancer.SubConn {
+	l := []balancer.SubConn{}
+	for i := 0; i < vM; i++ {
+		l = append(l, w.scs[i])
+	}
+	return append(l, extra...)
+}
+
+func (w *verifWorld) deadList() []balancer.SubConn {
+	l := []balancer.SubConn{}
+	for j := 0; j < vR; j++ {
+		l = append(l, w.dead[j])
+	}
+	return l
+}
+
+func (w *verifWorld) anyRef(name string) *subConnRef { return verifChoose(name, w.refs[:]...) }
 
 type verifWorld struct {
 	gb    *gcpBalancer
@@ -276,8 +290,13 @@ func verifMkWorld() *verifWorld {
 	for j := 0; j < vR; j++ {
 		w.dead[j] = &verifSC{id: 50 + j}
 	}
-	w.keys = [vK]string{verifStr("keyA"), verifStr("keyB")}
-	verifAssume(w.keys[0] != w.keys[1] && w.keys[0] != "" && w.keys[1] != "")
+	for x := 0; x < vK; x++ {
+		w.keys[x] = verifStr("key" + verifD(x))
+		verifAssume(w.keys[x] != "")
+		for y := 0; y < x; y++ {
+			verifAssume(w.keys[x] != w.keys[y])
+		}
+	}
 	verifClock = verifTime("now")
 	verifAssume(!verifClock.Before(time.Unix(0, 0)) && verifClock.Before(time.Unix(0, 1<<61)))
 	for j := 0; j < vR; j++ {
@@ -317,7 +336,7 @@ func (w *verifWorld) fill(sfx string) {
 	for j := 0; j < vR; j++ {
 		r := w.refs[j]
 		d := verifD(j)
-		r.subConn = verifChoose[balancer.SubConn]("refsc"+d+sfx, w.scs[0], w.scs[1], w.dead[j])
+		r.subConn = verifChoose("refsc"+d+sfx, w.scList(w.dead[j])...)
 		r.streamsCnt = verifI32("streams" + d + sfx)
 		verifAssume(r.streamsCnt < 1<<30)
 		r.affinityCnt = verifI32("affcnt" + d + sfx)
@@ -336,28 +355,27 @@ func (w *verifWorld) fill(sfx string) {
 		sc := balancer.SubConn(w.scs[i])
 		d := verifD(i)
 		inPool := verifBool("inPool" + d + sfx)
-		slot := verifChoose("slot"+d+sfx, w.refs[0], w.refs[1], w.refs[2])
+		slot := w.anyRef("slot" + d + sfx)
 		verifMapPut(gb.scRefs, sc, slot, inPool)
 		st := connectivity.State(verifInt("st" + d + sfx))
 		verifAssume(st >= 0 && st <= 3)
 		verifMapPut(gb.scStates, sc, st, inPool)
 		isRepl := verifBool("isRepl" + d + sfx)
-		rslot := verifChoose("rslot"+d+sfx, w.refs[0], w.refs[1], w.refs[2])
+		rslot := w.anyRef("rslot" + d + sfx)
 		verifMapPut(gb.refreshingScRefs, sc, rslot, isRepl)
 		w.scs[i].addrTag = verifInt("addrTag" + d + sfx)
 	}
 	for x := 0; x < vK; x++ {
 		d := verifD(x)
-		verifMapPut(gb.affinityMap, w.keys[x], verifChoose[balancer.SubConn]("aff"+d+sfx, w.scs[0], w.scs[1], w.dead[0], w.dead[1], w.dead[2]), verifBool("bound"+d+sfx))
-		verifMapPut(gb.fallbackMap, w.keys[x], verifChoose[balancer.SubConn]("fb"+d+sfx, w.scs[0], w.scs[1]), verifBool("hasFb"+d+sfx))
+		verifMapPut(gb.affinityMap, w.keys[x], verifChoose("aff"+d+sfx, w.scList(w.deadList()...)...), verifBool("bound"+d+sfx))
+		verifMapPut(gb.fallbackMap, w.keys[x], verifChoose("fb"+d+sfx, w.scList()...), verifBool("hasFb"+d+sfx))
 	}
 	// pickers: duplicate-free lists of slots
 	for pi, p := range []*gcpPicker{w.pk, w.other} {
 		d := verifD(pi)
-		list := []*subConnRef{
-			verifChoose("pk"+d+"_0"+sfx, w.refs[0], w.refs[1], w.refs[2]),
-			verifChoose("pk"+d+"_1"+sfx, w.refs[0], w.refs[1], w.refs[2]),
-			verifChoose("pk"+d+"_2"+sfx, w.refs[0], w.refs[1], w.refs[2]),
+		list := []*subConnRef{}
+		for q := 0; q < vR; q++ {
+			list = append(list, w.anyRef("pk"+d+"_"+verifD(q)+sfx))
 		}
 		n := verifInt("pk" + d + "_len" + sfx)
 		verifAssume(n >= 0 && n <= vR)
